@@ -56,6 +56,19 @@ func (releaseComp) Corpus() [][]string {
 		{"tag a 1 0", "tag a 0 0", "tag b 1 0", "cache a.f1 5 -10 h1 1", "file a.f1 5 -10 x", "scan"},
 		// hashless entry (straggler) with and without its file; zero-size and future files are not scanned
 		{"cache a.f1 5 -3 - 0", "cache a.f2 5 -3 - 0", "file a.f1 5 -3 x", "file a.f3 0 -3 x", "file a.f4 4 2 x", "file a.f5 4 0 x", "scan"},
+		// seeded change C02c (Sync compared whole seconds): a file rewritten with the same size 200 ms later, within
+		// the same second, while its transmitted version awaits confirmation: the confirmation of the OLD version
+		// must not delete it (times `T+K`: K ticks of 100 ms after hour T)
+		{"tag a 1 0", "cache a.f1 5 -1+3 m-v1-5 0", "file a.f1 5 -1+3 v1", "answer a.f1 none", "validate a.f1:0",
+			"file a.f1 5 -1+5 v2", "answer a.f1 passed", "validate a.f1:0", "scan"},
+		{"tag a 1 0", "cache a.f1 5 0+13 m-v1-5 0", "file a.f1 5 0+12 v2", "finish a.f1 waiting"},
+		// the same before the scan clean-up of a confirmed version, and one tick apart across a second boundary
+		{"tag a 1 0", "cache a.f1 5 -1+3 m-v1-5 1", "file a.f1 5 -1+5 v2", "scan"},
+		{"tag a 1 0", "cache a.f1 5 -1+9 m-v1-5 1", "cache a.f2 5 -1+9 m-v1-5 0", "file a.f1 5 -1+10 v2", "file a.f2 5 -1+10 v2", "finish a.f2 passed", "scan"},
+		// sub-second times and the clock: the delete delay is compared with the exact age (age = delay + 0.3 s deletes,
+		// delay - 0.3 s does not), a file less than an hour old is not from the future, the last tick that can be written
+		{"tag a 1 2", "cache a.f1 5 -2+3 h1 1", "cache a.f2 5 -1+3 h2 1", "cache a.f3 5 -3+29999 h3 1", "file a.f1 5 -2+3 x", "file a.f2 5 -1+3 x",
+			"file a.f3 5 -3+29999 x", "file a.f4 4 0+29999 x", "file a.f5 4 1 x", "scan", "restart 1", "scan"},
 	}
 }
 
@@ -83,6 +96,12 @@ func (recoveryComp) Corpus() [][]string {
 			"file a.f1 5 -2 x", "file a.f2 4 -2 x", "file ign.f4 4 -2 x", "file a.f5 4 -1 x", "recover", "scan"},
 		// crash after the poll batch was processed but the process died: the persisted cache says done
 		{"cache a.f1 4 -2 h1 0", "file a.f1 4 -2 x", "answer a.f1 passed", "recover", "restart 1", "recover"},
+		// seeded change C02c across a crash: rewritten within the same second (same size) after its transmission, then
+		// the restart: recover() must see the change (no poll, no done mark, no deletion); one tick across a second
+		// boundary and the unchanged file as controls
+		{"tag a 1 0", "cache a.f1 5 -1+3 m-v1-5 0", "cache a.f2 5 -1+9 m-v1-5 0", "cache a.f3 5 -1+7 m-v1-5 0",
+			"file a.f1 5 -1+5 v2", "file a.f2 5 -1+10 v2", "file a.f3 5 -1+7 v1",
+			"answer a.f1 passed", "answer a.f2 passed", "answer a.f3 passed", "restart 3", "recover", "scan"},
 	}
 }
 
@@ -92,9 +111,47 @@ type relGenFile struct {
 	name    string
 	size    int
 	time    int
+	tick    int // ticks (100 ms) after hour `time`
 	content string
 	onDisk  bool
 	cached  bool
+	had     map[[3]int]bool // the (size, hour, tick) versions this name had in the case
+}
+
+// relT writes a time of the op grammar: `T`, or `T+K` for K ticks after hour T.
+func relT(h, k int) string {
+	if k == 0 {
+		return fmt.Sprint(h)
+	}
+	return fmt.Sprintf("%d+%d", h, k)
+}
+
+// relTickNear: a tick count that differs from k by 1..9 ticks. kind 0: within the same second; 1: across a
+// second boundary; (ok = false when k leaves no room: the caller falls back to another kind of change).
+func relTickNear(r *Rand, k int, kind int) (int, bool) {
+	sec, sub := k/10, k%10
+	switch kind {
+	case 0:
+		b := r.Range(0, 8)
+		if b >= sub {
+			b++
+		}
+		return sec*10 + b, true
+	default:
+		var cands []int
+		for d := 1; d <= 9; d++ {
+			if sub+d >= 10 && k+d < relMaxTick {
+				cands = append(cands, k+d)
+			}
+			if sub-d < 0 && k-d >= 0 {
+				cands = append(cands, k-d)
+			}
+		}
+		if len(cands) == 0 {
+			return 0, false
+		}
+		return cands[r.Intn(len(cands))], true
+	}
 }
 
 func relPartsTok(parts [][2]int) string {
@@ -219,12 +276,15 @@ func relGenCase(r *Rand, mode string) []string {
 		if tag == "zz" && r.Chance(0.5) {
 			name = fmt.Sprintf("zz%d", i)
 		}
-		f := &relGenFile{name: name, size: r.Pick2([]int{1, 2, 5, 10, 16, 40}), time: times[r.Intn(len(times))], content: r.Pick(contents)}
+		f := &relGenFile{name: name, size: r.Pick2([]int{1, 2, 5, 10, 16, 40}), time: times[r.Intn(len(times))], content: r.Pick(contents), had: map[[3]int]bool{}}
 		if d, ok := tagDelay[tag]; ok && d > 0 && r.Chance(0.5) {
 			f.time = -(d + r.Range(-1, 1)) + 1 // around the delay boundary: now - t = d-1, d, d+1
 		}
 		files = append(files, f)
 		allNames = append(allNames, name)
+		if r.Chance(0.12) {
+			f.tick = r.Pick2([]int{1, 5, 9, 10, 17, 599, 29999})
+		}
 		hashTok := relFileTok(f.content, int64(f.size))
 		if r.Chance(0.25) {
 			hashTok = fmt.Sprintf("h%d", i)
@@ -237,14 +297,33 @@ func relGenCase(r *Rand, mode string) []string {
 			if r.Chance(0.3) {
 				done = 1
 			}
-			add("cache %s %d %d %s %d", name, f.size, f.time, hashTok, done)
-			add("file %s %d %d %s", name, f.size, f.time, f.content)
+			add("cache %s %d %s %s %d", name, f.size, relT(f.time, f.tick), hashTok, done)
+			add("file %s %d %s %s", name, f.size, relT(f.time, f.tick), f.content)
 		case 4: // cached, file changed
 			f.cached, f.onDisk = true, true
 			if r.Chance(0.5) {
 				done = 1
 			}
-			add("cache %s %d %d %s %d", name, f.size, f.time, hashTok, done)
+			if r.Chance(0.35) {
+				// changed by a few ticks only (same second / across a second boundary), mostly with the same size
+				f.tick = r.Range(0, 2999)*10 + r.Range(0, 9)
+				if r.Chance(0.3) {
+					f.tick = r.Range(0, 9)
+				}
+				add("cache %s %d %s %s %d", name, f.size, relT(f.time, f.tick), hashTok, done)
+				nk, ok := relTickNear(r, f.tick, r.Intn(3)/2)
+				if !ok {
+					nk, _ = relTickNear(r, f.tick, 0)
+				}
+				ns := f.size
+				if r.Chance(0.3) {
+					ns = f.size + r.Range(1, 3)
+				}
+				f.had[[3]int{ns, f.time, nk}] = true
+				add("file %s %d %s %s", name, ns, relT(f.time, nk), r.Pick(contents))
+				break
+			}
+			add("cache %s %d %s %s %d", name, f.size, relT(f.time, f.tick), hashTok, done)
 			ns, nt := f.size, f.time
 			if r.Chance(0.5) {
 				ns = f.size + r.Range(1, 3)
@@ -257,19 +336,20 @@ func relGenCase(r *Rand, mode string) []string {
 			if r.Chance(0.2) {
 				nt = r.Range(1, 5) // rewritten "just now": not before the scan start, the store's scan skips it
 			}
-			add("file %s %d %d %s", name, ns, nt, r.Pick(contents))
+			f.had[[3]int{ns, nt, f.tick}] = true
+			add("file %s %d %s %s", name, ns, relT(nt, f.tick), r.Pick(contents))
 		case 5: // cached, file vanished
 			f.cached = true
 			if r.Chance(0.3) {
 				done = 1
 			}
-			add("cache %s %d %d %s %d", name, f.size, f.time, hashTok, done)
+			add("cache %s %d %s %s %d", name, f.size, relT(f.time, f.tick), hashTok, done)
 		case 6: // cached without hash
 			f.cached = true
-			add("cache %s %d %d - %d", name, f.size, f.time, r.Intn(5)/4)
+			add("cache %s %d %s - %d", name, f.size, relT(f.time, f.tick), r.Intn(5)/4)
 			if r.Chance(0.7) {
 				f.onDisk = true
-				add("file %s %d %d %s", name, f.size, f.time, f.content)
+				add("file %s %d %s %s", name, f.size, relT(f.time, f.tick), f.content)
 			}
 		case 7: // new file
 			f.onDisk = true
@@ -280,13 +360,15 @@ func relGenCase(r *Rand, mode string) []string {
 			if r.Chance(0.15) {
 				tm = r.Range(1, 3)
 			}
-			add("file %s %d %d %s", name, sz, tm, f.content)
+			f.had[[3]int{sz, tm, f.tick}] = true
+			add("file %s %d %s %s", name, sz, relT(tm, f.tick), f.content)
 		case 8: // receiver-only
 		default: // cached not done, file same (the common in-flight state)
 			f.cached, f.onDisk = true, true
-			add("cache %s %d %d %s 0", name, f.size, f.time, hashTok)
-			add("file %s %d %d %s", name, f.size, f.time, f.content)
+			add("cache %s %d %s %s 0", name, f.size, relT(f.time, f.tick), hashTok)
+			add("file %s %d %s %s", name, f.size, relT(f.time, f.tick), f.content)
 		}
+		f.had[[3]int{f.size, f.time, f.tick}] = true
 		if f.cached {
 			cachedNames = append(cachedNames, name)
 		}
@@ -358,6 +440,14 @@ func relGenCase(r *Rand, mode string) []string {
 			add("rmfile %s", f.name)
 		default:
 			// a fresh version: never the size/time pair this name had before
+			if r.Chance(0.3) {
+				// the same size, a few ticks from the first version (same second or the next / previous one)
+				if nk, ok := relTickNear(r, f.tick, r.Intn(2)); ok && !f.had[[3]int{f.size, f.time, nk}] {
+					f.had[[3]int{f.size, f.time, nk}] = true
+					add("file %s %d %s %s", f.name, f.size, relT(f.time, nk), r.Pick(contents))
+					break
+				}
+			}
 			add("file %s %d %d %s", f.name, f.size+r.Range(1, 4), -r.Range(0, 3), r.Pick(contents))
 		}
 	}
@@ -400,6 +490,176 @@ func relGenCase(r *Rand, mode string) []string {
 }
 
 func (r *Rand) Pick2(xs []int) int { return xs[r.Intn(len(xs))] }
+
+// relGenRewrite: files are rewritten under their names after the version the cache describes was taken
+// (transmitted and awaiting confirmation, or confirmed earlier and awaiting the clean-up). The new version
+// differs from the cached one by 1..9 ticks within the same second, by 1..9 ticks across a second boundary,
+// by whole seconds, by whole hours, or not at all (control), with the same or another size. Then the step
+// that may release the name runs: the confirmation (validate / finish), the scan clean-up of a done entry
+// with delete configured, recover() (after a restart or not). Whatever the resolution of the change, only
+// the version the cache describes may be deleted, and the new one must be queued by the next scan.
+func relGenRewrite(r *Rand, mode string) []string {
+	var ops []string
+	add := func(f string, a ...any) { ops = append(ops, fmt.Sprintf(f, a...)) }
+	delay := []int{0, 0, 0, 1, 3}[r.Intn(5)]
+	add("tag a 1 %d", delay)
+	if r.Chance(0.3) {
+		add("tag b %d 0", r.Intn(2))
+	}
+	attempts := 2
+	if r.Chance(0.5) {
+		attempts = r.Range(1, 3)
+		add("conf attempts %d", attempts)
+	}
+	if r.Chance(0.3) {
+		add("conf pollmax %d", r.Range(1, 3))
+	}
+	contents := []string{"v", "w", "x"}
+	type rw struct {
+		name, line string
+		done       bool
+	}
+	var files []rw
+	n := r.Range(1, 3)
+	for i := 0; i < n; i++ {
+		tag := "a"
+		if r.Chance(0.12) {
+			tag = "b"
+		}
+		name := fmt.Sprintf("%s.f%d", tag, i)
+		size := r.Pick2([]int{1, 5, 5, 10, 16})
+		hour := r.Pick2([]int{0, -1, -1, -2, -5, -48, -delay - 1, -delay, -delay + 1})
+		if hour > 0 {
+			hour = 0
+		}
+		tick := r.Range(0, 2998)*10 + r.Range(0, 9)
+		switch r.Intn(5) {
+		case 0:
+			tick = 0
+		case 1:
+			tick = r.Range(0, 19)
+		}
+		content := r.Pick(contents)
+		done := r.Chance(0.35)
+		hashTok := relFileTok(content, int64(size))
+		if r.Chance(0.15) {
+			hashTok = fmt.Sprintf("h%d", i)
+		}
+		add("cache %s %d %s %s %d", name, size, relT(hour, tick), hashTok, map[bool]int{false: 0, true: 1}[done])
+		// the version on disk when the process starts: the cached one (rewritten later), or the rewrite already
+		nh, nk, ns := hour, tick, size
+		kind := r.Intn(6)
+		switch kind {
+		case 0, 1: // 1..9 ticks, same second
+			nk, _ = relTickNear(r, tick, 0)
+		case 2: // 1..9 ticks, across a second boundary
+			if k, ok := relTickNear(r, tick, 1); ok {
+				nk = k
+			} else {
+				nk, _ = relTickNear(r, tick, 0)
+			}
+		case 3: // whole seconds
+			nk = tick + 10*r.Range(1, 5)
+			if nk >= relMaxTick || r.Chance(0.5) && tick >= 50 {
+				nk = tick - 10*r.Range(1, 5)
+			}
+		case 4: // whole hours
+			nh = hour - r.Range(1, 3)
+		default: // not rewritten
+		}
+		if kind != 5 && r.Chance(0.35) {
+			ns = size + r.Range(1, 3)
+		}
+		ncontent := content
+		if kind != 5 {
+			ncontent = r.Pick(contents)
+		}
+		line := fmt.Sprintf("file %s %d %s %s", name, ns, relT(nh, nk), ncontent)
+		if r.Chance(0.7) {
+			add("file %s %d %s %s", name, size, relT(hour, tick), content)
+			files = append(files, rw{name, line, done})
+		} else {
+			add("%s", line)
+			files = append(files, rw{name, "", done})
+		}
+	}
+	positive := func() string { return r.Pick([]string{"passed", "waiting"}) }
+	// something happens while the cached versions are still the ones on disk
+	allOnDisk := true
+	for _, f := range files {
+		allOnDisk = allOnDisk && f.line != ""
+	}
+	if allOnDisk && r.Chance(0.5) {
+		switch r.Intn(3) {
+		case 0:
+			add("scan")
+		case 1:
+			for _, f := range files {
+				add("answer %s %s", f.name, r.Pick([]string{"none", "failed", "none,failed"}))
+			}
+			add("recover")
+		default:
+			var toks []string
+			for _, f := range files {
+				add("answer %s %s", f.name, r.Pick([]string{"none", "failed"}))
+				toks = append(toks, f.name+":0")
+			}
+			add("validate %s", strings.Join(toks, ","))
+		}
+	}
+	for _, f := range files {
+		if f.line != "" {
+			add("%s", f.line)
+		}
+	}
+	// the releasing step
+	final := r.Intn(6)
+	if mode == "recovery" {
+		final = []int{3, 3, 4, 4, 4, 5, 0, 2}[r.Intn(8)]
+	}
+	switch final {
+	case 0: // the validator loop gets the confirmation
+		var toks []string
+		for _, f := range files {
+			if r.Chance(0.3) && attempts > 1 {
+				add("answer %s none,%s", f.name, positive())
+			} else {
+				add("answer %s %s", f.name, r.Pick([]string{"passed", "waiting", "passed", "waiting", "failed"}))
+			}
+			toks = append(toks, f.name+":0")
+		}
+		add("validate %s", strings.Join(toks, ","))
+	case 1:
+		for _, f := range files {
+			add("finish %s %s", f.name, r.Pick([]string{"passed", "waiting", "passed", "waiting", "none"}))
+		}
+	case 2:
+		add("scan")
+	case 3:
+		for _, f := range files {
+			add("answer %s %s", f.name, r.Pick([]string{"passed", "waiting", "passed", "waiting", "none", "failed"}))
+		}
+		add("recover")
+	case 4:
+		for _, f := range files {
+			add("answer %s %s", f.name, r.Pick([]string{"passed", "waiting", "passed", "waiting", "none"}))
+		}
+		add("restart %d", []int{0, 1, 2, 50}[r.Intn(4)])
+		add("recover")
+	default:
+		add("restart %d", []int{0, 1, 2, 50}[r.Intn(4)])
+		add("scan")
+	}
+	// and the next scan must queue what was rewritten
+	if r.Chance(0.7) {
+		add("scan")
+	}
+	if r.Chance(0.2) {
+		add("restart %d", r.Intn(3))
+		add("recover")
+	}
+	return ops
+}
 
 // relTrackSim mirrors the tracker's bookkeeping (Model/Release.lean trackRun) so that the
 // generator knows which files would stay in the progress map.
@@ -500,6 +760,10 @@ func relGenMalformed(r *Rand) []string {
 		"restart -1", "restart x", "recover now", "scan all", "finish a.f1", "finish a.f1 omit", "finish a.f1 sure",
 		"validate a.f1", "validate a.f1:x", "validate a.f1:0,a.f1:0", "validate a.f1:9", "validate", "track a.f1:h:5", "track a.f1:h:x:5",
 		"release", "", "cache a.f1 5 -1 h 0 extra",
+		// times: `T` or `T+K`, 0 <= K < 30000
+		"file a.f1 5 -1+ v", "file a.f1 5 +3 v", "file a.f1 5 1+2+3 v", "file a.f1 5 -1+-2 v", "file a.f1 5 -1++2 v", "file a.f1 5 0+30000 v",
+		"file a.f1 5 0+x v", "file a.f1 5 + v", "cache a.f7 5 -1+30000 h 0", "cache a.f7 5 -1+ h 0", "cache a.f7 5 x+1 h 0", "file a.f1 5 -2+29999 v",
+		"file a.f1 5 -0+007 v", "tag b 1 1+5", "restart 1+5",
 	}
 	var ops []string
 	ops = append(ops, "tag a 1 0", "cache a.f1 5 -1 h1 0", "file a.f1 5 -1 v")
@@ -529,6 +793,8 @@ func relGenerate(r *Rand, mode string, n int) [][]string {
 			cases = append(cases, relGenMalformed(r))
 		case mode == "release" && r.Chance(0.08):
 			cases = append(cases, relGenTrack(r))
+		case r.Chance(0.15):
+			cases = append(cases, relGenRewrite(r, mode))
 		default:
 			cases = append(cases, relGenCase(r, mode))
 		}
